@@ -62,13 +62,20 @@ struct Ctx {
     const std::vector<std::vector<double>>* rows[2] = {nullptr, nullptr}; // expected data row of particle index (already converted to DataType, as double)
     std::unordered_map<const void*, CellId> multAddr, localAddr;
     int copies = 0;
+    // per-task access recording (C03): which task touched which object, and how
+    struct Access { int task; const void* addr; bool write; };
+    int (*currentTaskFn)() = nullptr;
+    std::vector<Access> accesses;
+    std::vector<std::pair<int,int>> kernelUse;    // (task, kernel copy id)
+    void access(const void* a, bool w){ if(currentTaskFn){ const int t = currentTaskFn(); if(t >= 0) accesses.push_back(Access{t, a, w}); } }
+    void useKernel(int copyId){ if(currentTaskFn){ const int t = currentTaskFn(); if(t >= 0 && (kernelUse.empty() || kernelUse.back() != std::make_pair(t, copyId))) kernelUse.push_back(std::make_pair(t, copyId)); } }
     std::mutex mtx;
     bool threadSafe = false;
 
     explicit Ctx(uint64_t salt) : P(salt){}
     void error(const std::string& e){ if(errors.size() < 20) errors.push_back(e); }
     long width(long level) const { return 1L << (base - level); }
-    void reset(){ log.clear(); errors.clear(); for(int i = 0 ; i < NbOps ; ++i){ calls[i] = 0; elems[i] = 0; } }
+    void reset(){ log.clear(); errors.clear(); accesses.clear(); kernelUse.clear(); for(int i = 0 ; i < NbOps ; ++i){ calls[i] = 0; elems[i] = 0; } }
 };
 
 template <class RealType_T, class SpaceIndexType_T>
@@ -130,6 +137,10 @@ private:
 
 public:
     explicit GfKernel(Ctx* inCtx) : ctx(inCtx), copyId(inCtx->copies++){}
+    // "AlgorithmClass algorithm(configuration)": the executor builds the kernel from the configuration
+    template <class ConfigurationClass, typename = decltype(std::declval<const ConfigurationClass&>().getTreeHeight())>
+    explicit GfKernel(const ConfigurationClass&) : ctx(defaultCtx()), copyId(defaultCtx()->copies++){}
+    static Ctx*& defaultCtx(){ static Ctx* c = nullptr; return c; }
     GfKernel(const GfKernel& o) : ctx(o.ctx), copyId(o.ctx->copies++){}
     GfKernel(GfKernel&& o) : ctx(o.ctx), copyId(o.copyId){}
     GfKernel& operator=(const GfKernel&) = default;
@@ -141,6 +152,7 @@ public:
              const long int inNbParticles, Cell& inOutLeaf) const {
         Guard g(ctx);
         ctx->calls[OpP2M] += 1; ctx->elems[OpP2M] += 1;
+        ctx->useKernel(copyId); ctx->access(&inOutLeaf, true);
         checkLeafArgs("P2M", 0, inLeafIndex, particlesIndexes, inParticles, inNbParticles);
         if(ctx->checking){
             auto it = ctx->multAddr.find(&inOutLeaf);
@@ -159,6 +171,8 @@ public:
              const long int childrenPos[], const long int inNbChildren) const {
         Guard g(ctx);
         ctx->calls[OpM2M] += 1; ctx->elems[OpM2M] += inNbChildren;
+        ctx->useKernel(copyId); ctx->access(&inOutUpperCell, true);
+        for(long i = 0 ; i < inNbChildren ; ++i) ctx->access(&inLowerCell[size_t(i)].get(), false);
         const rm::Coord pc = coordOf(inCellIndex);
         if(ctx->checking){
             if(inNbChildren < 1 || inNbChildren > (1L << Dim)) ctx->error("M2M: number of children out of [1,2^Dim]");
@@ -204,6 +218,8 @@ public:
              const long int neighPos[], const long int inNbNeighbors, Cell& inOutCell) const {
         Guard g(ctx);
         ctx->calls[OpM2L] += 1; ctx->elems[OpM2L] += inNbNeighbors;
+        ctx->useKernel(copyId); ctx->access(&inOutCell, true);
+        for(long i = 0 ; i < inNbNeighbors ; ++i) ctx->access(&inInteractingCells[size_t(i)].get(), false);
         const rm::Coord tc = coordOf(inTargetIndex);
         if(ctx->checking){
             if(inNbNeighbors < 1) ctx->error("M2L: empty source list");
@@ -267,6 +283,8 @@ public:
              const long int childrenPos[], const long int inNbChildren) const {
         Guard g(ctx);
         ctx->calls[OpL2L] += 1; ctx->elems[OpL2L] += inNbChildren;
+        ctx->useKernel(copyId); ctx->access(&inUpperCell, false);
+        for(long i = 0 ; i < inNbChildren ; ++i) ctx->access(&inOutLowerCell[size_t(i)].get(), true);
         const rm::Coord pc = coordOf(inParentIndex);
         if(ctx->checking){
             if(inNbChildren < 1 || inNbChildren > (1L << Dim)) ctx->error("L2L: number of children out of [1,2^Dim]");
@@ -312,6 +330,7 @@ public:
              const ParticlesClassValues& inOutParticles, ParticlesClassRhs& inOutParticlesRhs, const long int inNbParticles) const {
         Guard g(ctx);
         ctx->calls[OpL2P] += 1; ctx->elems[OpL2P] += 1;
+        ctx->useKernel(copyId); ctx->access(&inLeaf, false); ctx->access(inOutParticlesRhs[0], true);
         checkLeafArgs("L2P", ctx->tagTgt ? 1 : 0, inLeafIndex, particlesIndexes, inOutParticles, inNbParticles);
         if(ctx->checking){
             auto it = ctx->localAddr.find(&inLeaf);
@@ -332,6 +351,7 @@ public:
              ParticlesClassRhs& inOutParticlesRhs, const long int inNbOutParticles, const long arrayIndexSrc) const {
         Guard g(ctx);
         ctx->calls[OpP2P] += 1; ctx->elems[OpP2P] += 1;
+        ctx->useKernel(copyId); ctx->access(inOutParticlesRhs[0], true); ctx->access(inParticlesNeighborsRhs[0], true);
         checkLeafArgs("P2P(source)", 0, inNeighborIndex, neighborsIndexes, inParticlesNeighbors, inNbParticlesNeighbors);
         checkLeafArgs("P2P(target)", 0, inTargetIndex, targetIndexes, inOutParticles, inNbOutParticles);
         const rm::Coord tc = coordOf(inTargetIndex), sc = coordOf(inNeighborIndex);
@@ -362,6 +382,7 @@ public:
                 const long arrayIndexSrc) const {
         Guard g(ctx);
         ctx->calls[OpP2PTsm] += 1; ctx->elems[OpP2PTsm] += 1;
+        ctx->useKernel(copyId); ctx->access(inOutParticlesRhs[0], true);
         checkLeafArgs("P2PTsm(source)", 0, inNeighborIndex, neighborsIndexes, inParticlesNeighbors, inNbParticlesNeighbors);
         checkLeafArgs("P2PTsm(target)", 1, inTargetIndex, targetIndexes, inOutParticles, inNbOutParticles);
         const rm::Coord tc = coordOf(inTargetIndex), sc = coordOf(inNeighborIndex);
@@ -383,6 +404,7 @@ public:
                   ParticlesClassRhs& inOutParticlesRhs, const long int inNbOutParticles) const {
         Guard g(ctx);
         ctx->calls[OpP2PInner] += 1; ctx->elems[OpP2PInner] += 1;
+        ctx->useKernel(copyId); ctx->access(inOutParticlesRhs[0], true);
         checkLeafArgs("P2PInner", 0, inLeafIndex, targetIndexes, inOutParticles, inNbOutParticles);
         gf::Val sum = gf::zero();
         for(long i = 0 ; i < inNbOutParticles ; ++i){ for(int k = 0 ; k < gf::NEVAL ; ++k) sum.v[k] = gf::add(sum.v[k], ctx->P.weight(k, targetIndexes[i], ctx->tagSrc)); sum.cnt += 1; }
